@@ -415,6 +415,25 @@ func mon14Workload(args []string) int {
 			g := newMixGen(world, rng)
 			shape := map[string]bool{}
 			nBlocks := 30
+			// every sixth case (with a gas price): the approval that would conclude an admin's registration - and pay
+			// the grant - is cast by an admin who cannot pay the fee for it: the vote is undone, grant included. The
+			// candidate account exists beforehand.
+			var script [][]pb.Transaction
+			var scriptPid string
+			if id%6 == 2 && price > 0 {
+				cand := harness.DetKey("new-admin-0")
+				adm0 := harness.AdminKey(0)
+				poorAdm := harness.AdminKey(nAdmins/2 + 0)
+				script = [][]pb.Transaction{
+					{world.Transfer(harness.User(0), cand.Addr, "1")},
+					{world.BVM(adm0, harness.AddrRole, "RegisterRole", pb.String(cand.Addr.String()), pb.String("governanceAdmin"), pb.String(""), pb.String("r"))},
+					nil, // the first nAdmins/2 approvals (filled in when the proposal id is known)
+					nil, // the admin who will cast the deciding vote gives its money away
+					nil, // the deciding vote
+				}
+				_ = poorAdm
+				shape["scripted:deciding-approval-cannot-pay"] = true
+			}
 			for b := 0; b < nBlocks; b++ {
 				pre := balances(world.R)
 				preRole := map[string]string{}
@@ -427,7 +446,33 @@ func mon14Workload(args []string) int {
 				var sK *harness.Key
 				var rAddr *types.Address
 				amtStr := ""
-				if single {
+				scripted := false
+				if b < len(script) {
+					poorAdm := harness.AdminKey(nAdmins / 2)
+					switch b {
+					case 2:
+						for i := 0; i < nAdmins/2 && scriptPid != ""; i++ {
+							script[b] = append(script[b], world.BVM(harness.AdminKey(i), harness.AddrGov, "Vote", pb.String(scriptPid), pb.String("approve"), pb.String("r")))
+						}
+					case 3:
+						if bal := pre[poorAdm.Addr.String()]; bal != nil && scriptPid != "" {
+							fee := new(big.Int).Mul(big.NewInt(21000), big.NewInt(price))
+							if amt := new(big.Int).Sub(new(big.Int).Sub(bal, fee), big.NewInt(1000)); amt.Sign() > 0 {
+								script[b] = []pb.Transaction{world.Transfer(poorAdm, harness.User(3).Addr, amt.String())}
+							}
+						}
+					case 4:
+						if scriptPid != "" {
+							script[b] = []pb.Transaction{world.BVM(poorAdm, harness.AddrGov, "Vote", pb.String(scriptPid), pb.String("approve"), pb.String("r"))}
+							w.Count("scripted_deciding_votes_by_admin_without_funds", 1)
+						}
+					}
+					if len(script[b]) > 0 {
+						txs, scripted, single = script[b], true, false
+					}
+				}
+				if scripted {
+				} else if single {
 					// dedicated: one transfer with a hostile amount
 					senders := []*harness.Key{harness.User(0), harness.User(1), harness.Pauper(), harness.DetKey("empty-account"), harness.AdminKey(0)}
 					sK = senders[rng.Intn(len(senders))]
@@ -478,6 +523,13 @@ func mon14Workload(args []string) int {
 				}
 				g.absorb(txs, res)
 				absorbDeploys(g, txs, res)
+				if scripted && b == 1 && res.Receipts[0].Status == pb.Receipt_SUCCESS {
+					scriptPid = harness.ProposalID(res.Receipts[0])
+				}
+				if scripted && b == 4 {
+					shape["scripted:deciding-vote:"+res.Receipts[0].Status.String()] = true
+					w.SetAdd("scripted_deciding_vote_outcomes", fmt.Sprintf("%v %.60s", res.Receipts[0].Status, string(res.Receipts[0].Ret)))
+				}
 				w.Count("blocks", 1)
 				w.Count("txs", int64(len(txs)))
 				post := balances(world.R)
